@@ -55,6 +55,32 @@ func bigLit(s string) Term {
 }
 
 func app(sort, op string, args ...Term) Term {
+	if sort == "Bool" && len(args) == 2 && isIntLit(args[0].S) && isIntLit(args[1].S) && len(args[0].S) < 18 && len(args[1].S) < 18 {
+		var x, y int64
+		fmt.Sscan(args[0].S, &x)
+		fmt.Sscan(args[1].S, &y)
+		r, known := false, true
+		switch op {
+		case "<=":
+			r = x <= y
+		case "<":
+			r = x < y
+		case ">=":
+			r = x >= y
+		case ">":
+			r = x > y
+		case "=":
+			r = x == y
+		default:
+			known = false
+		}
+		if known {
+			if r {
+				return tTrue
+			}
+			return tFalse
+		}
+	}
 	var b strings.Builder
 	b.WriteString("(")
 	b.WriteString(op)
